@@ -194,6 +194,10 @@ func commitWith(wt *git.Worktree, msg string, n int, parents []plumbing.Hash) (p
 	return wt.Commit(msg, &git.CommitOptions{AllowEmptyCommits: true, Author: sig, Committer: sig, Parents: parents})
 }
 
+// decoys > 0: every second file (counted from decoys) is accompanied by <name>.thrift.orig and
+// <name>.thrift.md, rewritten with every version.
+var decoys, decoyVersion int
+
 // execFiles > 0: every second file (counted from execFiles) is written with mode 0755.
 var execFiles int
 
@@ -217,6 +221,13 @@ func writeVersion(dir string, p *progen.Program) error {
 		os.Remove(full)
 		if err := os.WriteFile(full, []byte(p.Render(i)), mode); err != nil {
 			return err
+		}
+		if decoys > 0 && (i+decoys)%2 == 0 {
+			// files that only have ".thrift" somewhere in their names, changing with every version:
+			// a backup copy of the file (valid Thrift, but not a Thrift file) and notes (not Thrift at all)
+			decoyVersion++
+			os.WriteFile(full+".orig", []byte(p.Render(i)+fmt.Sprintf("// copy %d\n", decoyVersion)), 0644)
+			os.WriteFile(full+".md", []byte(fmt.Sprintf("# notes, revision %d: `struct {` is not closed here\n", decoyVersion)), 0644)
 		}
 	}
 	// remove files that no longer exist
@@ -355,6 +366,11 @@ func RunC20(cfg simrt.Config, o world.Opts) *world.Result {
 			for _, e := range expected {
 				logf("expected diagnostic: %s", e)
 			}
+		}
+		decoys, decoyVersion = 0, 0
+		if simrt.Flip("c20.decoy-files", 0.15) {
+			decoys = 1 + ch("c20.decoy-which", 2)
+			res.Count("c20.repositories-with-decoy-files", 1)
 		}
 		execFiles = 0
 		if simrt.Flip("c20.executable-files", 0.15) {
@@ -566,7 +582,13 @@ func RunC20(cfg simrt.Config, o world.Opts) *world.Result {
 			// at all (the tool then takes the current directory)
 			args := []string{"-C", target}
 			cwd := ""
-			switch ch("c20.repo-arg", 4) {
+			goneCwd := ""
+			switch ch("c20.repo-arg", 5) {
+			case 4:
+				// an absolute -C while the process's own working directory no longer exists
+				goneCwd = filepath.Join(wdir, "gone")
+				os.MkdirAll(goneCwd, 0755)
+				cwd = goneCwd
 			case 1:
 				cwd, args = filepath.Dir(target), []string{"-C", filepath.Base(target)}
 			case 2:
@@ -590,6 +612,9 @@ func RunC20(cfg simrt.Config, o world.Opts) *world.Result {
 				if err := os.Chdir(cwd); err != nil {
 					panic(err)
 				}
+			}
+			if goneCwd != "" && cwd == goneCwd {
+				os.Remove(goneCwd)
 			}
 			got := runTB(args, capture)
 			if cwd != "" {
